@@ -42,7 +42,7 @@ if [ -f "$d/demo/demo.sh" ]; then
 fi
 rm -f "$wt.out.pre" "$wt.out.post" "$wt.out.pre2" "$wt.out.post2"
 for id in "$@"; do
-  out=$(VERIF_BUDGET_S=${SEED_BUDGET_S:-3000} VERIF_REPO="$wt" VERIF_OUT="$wt.out" ./run.sh "$id" ${SEED_TIER:-quick} 2>&1); code=$?
+  out=$(C11_PHASE1_S=${SEED_BUDGET_S:-3000} VERIF_BUDGET_S=${SEED_BUDGET_S:-3000} VERIF_REPO="$wt" VERIF_OUT="$wt.out" ./run.sh "$id" ${SEED_TIER:-quick} 2>&1); code=$?
   mkdir -p /dev/shm/seedlogs; echo "$out" > "/dev/shm/seedlogs/$(basename $(dirname $d))_$(basename $d).$id.check.log"
   nv=$(echo "$out" | grep -c '^VIOLATION')
   if [ $code -eq 1 ] && [ $nv -gt 0 ]; then echo "CAUGHT by $id ($nv violations): $(echo "$out" | grep -m1 'signature:' | sed 's/^ *//' | cut -c1-300)"; else echo "MISSED by $id (exit $code)"; echo "$out" | tail -2; fi
